@@ -98,6 +98,11 @@ func fieldPtr(p *PtrV, st *types.Struct, i int) *PtrV {
 
 // load reads a value of type p.Elem through p.
 func (st *State) load(p *PtrV) Val {
+	if p.Kind == PHeap && p.Idx == nil && len(p.Alts) == 0 && st.vc.frozen != nil && p.Key == typeKey(p.Elem) {
+		if v, ok := st.vc.frozen[p.Base]; ok {
+			return v
+		}
+	}
 	if len(p.Alts) > 0 {
 		self := *p
 		self.Alts = nil
@@ -775,7 +780,7 @@ func isRefLike(t types.Type) bool {
 
 // monotoneCounters: ghost counters that the program only ever increments (every send, every message handed to a
 // session): whatever unknown code ran, their value did not decrease.
-var monotoneCounters = map[string]bool{"ghost:sentTotal": true, "ghost:outTotal": true, "ghost:idLookups": true, "ghost:doneCalls": true}
+var monotoneCounters = map[string]bool{"ghost:sentTotal": true, "ghost:outTotal": true, "ghost:idLookups": true, "ghost:doneCalls": true, "ghost:spawnedTotal": true}
 
 func (st *State) monotone(name string, before *Term) {
 	if monotoneCounters[name] && before != nil && before.Sort.Kind == SInt {
